@@ -1,18 +1,21 @@
 //! C09: drives dasp_graph::{Processor, sources, sinks} over petgraph `Graph` and `StableGraph`
 //! of `NodeData<BoxedNode>` built from a script.
 //! Input line:  `<G|S> ; op , op , ...`   (G = petgraph::Graph, S = petgraph::stable_graph::StableGraph)
-//! ops:  `N k`    add a node (k = 0: output is a pure function of the inputs, k = 1: also of its call count)
+//! ops:  `N k b`  add a node with b (0, 1 or 2) output buffers (k = 0: output is a pure function of the inputs,
+//!                k = 1: also of its call count); b = 0 is NodeData::new(node, vec![]), a meter-style node
 //!       `E a b`  add an edge a -> b        `R a`  remove node a (StableGraph only)
 //!       `P o`    Processor::process(graph, o) on the ONE processor of the case
 //!       `B`      snapshot of every slot's buffer value and call count     `Q`  sources() and sinks()
 //! Output: observations joined by ';':
 //!   `1 idx` (N)  `2` (E)  `3 0|1` (R: None|Some)
-//!   `10 n` then n times `11 who k from_1..from_k seen_1..seen_k` (P: invocation log in call order;
-//!        from_i = identity sentinel found in input i's buffer, seen_i = value found there)
-//!   `12 v...` `13 c...` (B: per slot, -1 = vacant)   `14 ids...` `15 ids...` (Q)
+//!   `10 n` then n times `11 who k len_1..len_k from_1..from_k seen_1..seen_k` (P: invocation log in call
+//!        order, recorded inside Node::process; len_i = number of buffers input i shows, from_i = identity
+//!        sentinel found in its first buffer (-1 when it has none), seen_i = sum of the values in its buffers)
+//!   `12 v...` `13 c...` `16 n...` (B: per slot value (-2 = node without buffers), call count, buffer count;
+//!        -1 = vacant)   `14 ids...` `15 ids...` (Q)
 //!   `8 code` a panic (3 = FixedBitSet assertion, 4 = expect(no node), 2 = add_edge on a missing node, 9 other);
 //!        the case ends at the first panic.
-//! Instrumented node: buffer[0][0] = value, buffer[0][1] = identity (slot index).
+//! Instrumented node: every buffer j of the node: buffer[j][0] = value, buffer[j][1] = identity (slot index).
 //!   value' = ((id+1)*7 + 1000*k*count + sum_i 3*(i+1)*seen_i) mod 65521 ; initial value = 50000 + id.
 use dasp_graph::{Buffer, BoxedNode, Input, Node, NodeData, Processor};
 use dasp_verif_harness::*;
@@ -33,22 +36,27 @@ struct Inst {
 impl Node for Inst {
     fn process(&mut self, inputs: &[Input], output: &mut [Buffer]) {
         let id = self.id.get();
+        let mut lens = Vec::new();
         let mut from = Vec::new();
         let mut seen = Vec::new();
         for inp in inputs {
             let b = inp.buffers();
-            seen.push(b[0][0] as i64);
-            from.push(b[0][1] as i64);
+            lens.push(b.len() as i64);
+            from.push(if b.is_empty() { -1 } else { b[0][1] as i64 });
+            seen.push(b.iter().map(|x| x[0] as i64).sum::<i64>());
         }
         let mut acc = (id + 1) * 7 + 1000 * self.kind * self.count.get();
         for (i, v) in seen.iter().enumerate() {
             acc += 3 * (i as i64 + 1) * v;
         }
         acc %= 65521;
-        output[0][0] = acc as f32;
-        output[0][1] = id as f32;
+        for out in output.iter_mut() {
+            out[0] = acc as f32;
+            out[1] = id as f32;
+        }
         self.count.set(self.count.get() + 1);
         let mut rec = vec![id, from.len() as i64];
+        rec.extend_from_slice(&lens);
         rec.extend_from_slice(&from);
         rec.extend_from_slice(&seen);
         self.log.borrow_mut().push(rec);
@@ -92,13 +100,15 @@ macro_rules! run_case {
                     let id = Rc::new(Cell::new(-1));
                     let count = Rc::new(Cell::new(0));
                     let inst = Inst { id: id.clone(), kind: a[0], count: count.clone(), log: log.clone() };
-                    let idx = g.add_node(NodeData::boxed1(inst));
+                    let idx = g.add_node(NodeData::boxed(inst, vec![Buffer::SILENT; a[1] as usize]));
                     let i = idx.index();
                     id.set(i as i64);
                     {
                         let w = g.node_weight_mut(idx).unwrap();
-                        w.buffers[0][0] = (50000 + i) as f32;
-                        w.buffers[0][1] = i as f32;
+                        for b in w.buffers.iter_mut() {
+                            b[0] = (50000 + i) as f32;
+                            b[1] = i as f32;
+                        }
                     }
                     if i < handles.len() {
                         handles[i] = (id, count);
@@ -148,21 +158,33 @@ macro_rules! run_case {
                 "B" => {
                     let mut vals = Vec::new();
                     let mut counts = Vec::new();
+                    let mut nbufs = Vec::new();
                     for i in 0..handles.len() {
                         match g.node_weight(NodeIndex::new(i)) {
                             Some(w) => {
-                                vals.push(w.buffers[0][0] as i64);
+                                match w.buffers.first() {
+                                    Some(b) => {
+                                        vals.push(b[0] as i64);
+                                        for b2 in w.buffers.iter() {
+                                            assert_eq!(b2[1] as i64, i as i64);
+                                            assert_eq!(b2[0], b[0]);
+                                        }
+                                    }
+                                    None => vals.push(-2),
+                                }
                                 counts.push(handles[i].1.get());
-                                assert_eq!(w.buffers[0][1] as i64, i as i64);
+                                nbufs.push(w.buffers.len() as i64);
                             }
                             None => {
                                 vals.push(-1);
                                 counts.push(-1);
+                                nbufs.push(-1);
                             }
                         }
                     }
                     out.push(obs(12, &vals));
                     out.push(obs(13, &counts));
+                    out.push(obs(16, &nbufs));
                 }
                 "Q" => {
                     let s: Vec<i64> = dasp_graph::sources(&&g).map(|n| n.index() as i64).collect();
